@@ -114,7 +114,12 @@ impl ErrName for ParseError {
     fn ename(&self) -> String {
         match self {
             ParseError::UnsupportedUrlScheme => "UnsupportedUrlScheme".into(),
-            ParseError::MissingRequiredField(f) => format!("MissingRequiredField.{}", field_name(f)),
+            ParseError::MissingRequiredField(f) => {
+                // name(), Display and From<PurlField> for &str are one and the same text
+                let via_from: &'static str = (*f).into();
+                let same = f.name() == via_from && f.to_string() == via_from;
+                format!("MissingRequiredField.{}{}", field_name(f), if same { "" } else { "!field" })
+            },
             ParseError::InvalidPackageType => "InvalidPackageType".into(),
             ParseError::InvalidQualifier => "InvalidQualifier".into(),
             ParseError::InvalidEscape => "InvalidEscape".into(),
@@ -528,13 +533,34 @@ fn quals_step(q: &mut Qualifiers, a: &[&str]) -> Result<String, String> {
         "len" => format!("{}{}", q.len(), if q.is_empty() { "e" } else { "" }),
         "iter" => {
             let mut o = String::from("[");
+            let mut bad = false;
             for (i, (k, v)) in q.iter().enumerate() {
                 if i > 0 {
                     o.push(',');
                 }
                 write!(o, "{}={}", h(k.as_str()), h(v)).unwrap();
+                // every way of looking at a key gives the same string
+                let d: &str = k;
+                let r: &str = k.as_ref();
+                let by_ref = SmallS::from(k);
+                let by_val = SmallS::from(k.clone());
+                bad = bad
+                    || d != k.as_str()
+                    || r != k.as_str()
+                    || by_ref.as_str() != k.as_str()
+                    || by_val.as_str() != k.as_str()
+                    || hash_of(k) != hash_of(&k.clone())
+                    || k.cmp(&k.clone()) != std::cmp::Ordering::Equal
+                    || *k != *k.as_str();
             }
+            // `&Qualifiers: IntoIterator` is the same iteration
+            let via_into: Vec<(String, String)> = (&*q).into_iter().map(|(k, v)| (k.as_str().to_string(), v.to_string())).collect();
+            let via_iter: Vec<(String, String)> = q.iter().map(|(k, v)| (k.as_str().to_string(), v.to_string())).collect();
+            bad = bad || via_into != via_iter;
             o.push(']');
+            if bad {
+                o.push_str("!keyconv");
+            }
             o
         },
         "riter" => {
@@ -617,7 +643,8 @@ fn quals_step(q: &mut Qualifiers, a: &[&str]) -> Result<String, String> {
         "imut" => {
             let x = unh(arg(a, 1)?)?;
             let mut n = 0;
-            for (_, v) in q.iter_mut() {
+            // through `&mut Qualifiers: IntoIterator`
+            for (_, v) in &mut *q {
                 v.push_str(&x);
                 n += 1;
             }
@@ -839,7 +866,16 @@ fn cksum_step(c: &mut Checksum<'static>, a: &[&str]) -> Result<String, String> {
             let mut w: Vec<(String, String)> =
                 (&*c).into_iter().map(|(k, v)| (k.to_string(), v.raw().to_string())).collect();
             w.sort();
-            format!("{}{}", show_entries(&v), if v == w { "" } else { "!intoiter" })
+            // ChecksumValue: Deref, raw(), Copy / Eq / Ord / Hash agree
+            let mut bad = false;
+            for (_, val) in c.iter() {
+                let d: &str = &val;
+                let copy = val;
+                bad = bad || d != val.raw() || copy != val || copy.cmp(&val) != std::cmp::Ordering::Equal || hash_of(&copy) != hash_of(&val);
+            }
+            let cl = c.clone();
+            bad = bad || sorted_entries(&cl) != v;
+            format!("{}{}{}", show_entries(&v), if v == w { "" } else { "!intoiter" }, if bad { "!value" } else { "" })
         },
         "text" => match purl::SmallStringCompat::try_text(c.clone()) {
             Ok(s) => format!("OK:{}", h(&s)),
